@@ -497,12 +497,13 @@ static void replace_sig(Case& c, const Bytes& sig_ht, const CKey& key)
 static void soundness_layer(bool big)
 {
     std::vector<int> ht_legacy = {0x01, 0x02, 0x03, 0x81, 0x82, 0x83, 0x00, 0x04, 0x1f, 0x41, 0x22, 0x63, 0xe3, 0xff, 0x80};
+    const std::set<int> ht_sigtamper(ht_legacy.begin(), ht_legacy.end()); // signature-level tampering: these hash types in both tiers
     if (big) { ht_legacy.clear(); for (int i = 0; i < 256; i++) ht_legacy.push_back(i); }
     const std::vector<int> ht_tap = {0, 1, 2, 3, 0x81, 0x82, 0x83};
     const std::vector<int> ht_tap_invalid = {4, 0x80, 0x84, 0x40, 0x7f, 0xff, 0x10, 0x21};
     struct Item { int variant, n_in, n_out, nin, kind; };
     std::vector<Item> items;
-    const int NV = big ? 3 : 1;
+    const int NV = big ? 2 : 1;
     for (int v = 0; v < NV; v++) for (int a = 1; a <= 3; a++) for (int b = 0; b <= 3; b++) for (int i = 0; i < a; i++) for (int k = 0; k < NKINDS; k++) items.push_back({v, a, b, i, k});
     std::atomic<uint64_t> n_base{0}, n_mut_commit{0}, n_mut_free{0}, n_sigbits{0}, n_htbytes{0}, n_misc{0}, n_unsignable{0};
     vx::Distinct verdict_classes;
@@ -551,6 +552,7 @@ static void soundness_layer(bool big)
                 }
                 // ---- signature-level tampering (shape-independent: done for the 2x2 shapes and the 1x1 shape)
                 if (!((n_in == 2 && n_out == 2) || (n_in == 1 && n_out == 1) || (big && n_in == 3 && n_out == 0))) continue;
+                if (!tap && !ht_sigtamper.count(ht)) continue;
                 const Bytes good = with_ht(c.sig, ht, tap);
                 for (size_t bit = 0; bit < c.sig.size() * 8; bit++) {
                     Case d = c;
@@ -567,7 +569,15 @@ static void soundness_layer(bool big)
                     s2.push_back((unsigned char)h2); // note: for taproot h2==0 gives an explicit 0x00 byte, which is invalid
                     replace_sig(d, s2, g_keyA);
                     n_htbytes++;
-                    if (verify(d.tx, d.spent, d.nIn)) S.viol("accepts-other-hashtype-byte-" + kbase, "signature made for hash type " + u(ht) + " accepted with hash-type byte " + u(h2) + ": " + where);
+                    // legacy SIGHASH_SINGLE without a matching output signs the constant 1 for every SINGLE-class byte
+                    const bool same_digest = cl == C_BASE && nin >= n_out && (ht & 0x1f) == 3 && (h2 & 0x1f) == 3;
+                    const bool acc = verify(d.tx, d.spent, d.nIn);
+                    if (acc && !same_digest) S.viol("accepts-other-hashtype-byte-" + kbase, "signature made for hash type " + u(ht) + " accepted with hash-type byte " + u(h2) + ": " + where);
+                    if (!acc && same_digest) S.viol("single-bug-digest-depends-on-hashtype-" + kbase, "legacy SIGHASH_SINGLE out-of-range digest must be 1 for byte " + u(h2) + " too: " + where);
+                }
+                if (tap && ht == 0) { // an explicit 0x00 hash-type byte is invalid even though the digest would be the same
+                    Case d = c; Bytes s2 = c.sig; s2.push_back(0); replace_sig(d, s2, g_keyA); n_misc++;
+                    if (verify(d.tx, d.spent, d.nIn)) S.viol("accepts-explicit-default-hashtype-byte-" + kbase, where);
                 }
                 if (tap && ht != 0) { // dropping the hash-type byte turns it into SIGHASH_DEFAULT
                     Case d = c; replace_sig(d, c.sig, g_keyA); n_misc++;
@@ -635,5 +645,7 @@ int main(int argc, char** argv)
     soundness_layer(big);
     if (vx::deadline_reached()) printf("M\tINCOMPLETE\n");
     S.finish();
+    g_keyA = CKey{}; // release secure memory before static destruction
+    g_keyB = CKey{};
     return 0;
 }
